@@ -65,8 +65,14 @@ def prepare(case):
                           .replace("<<SPACED>>", spaced) for l in d["lines"]]
             if d.get("form") == "bare" and not all(l == "" or l[0].isalpha() for l in d["lines"]):
                 d["form"] = "leader"
+    n = 0
     for it, _, _ in G.walk(mod["items"]):
         fix(it.get("doc"))
+        if it["k"] == "parseargs":
+            n += 1
+            if n % 3 == 0:
+                # the call itself carries a doccomment: it still belongs to the body it sits in
+                it["doc"] = {"lines": [f"Parses the keyword arguments. PADOC{n}M"], "form": "leader", "marker": f"PADOC{n}M"}
     if mod.get("moddoc"):
         fix(mod["moddoc"])
     return mod
